@@ -1,45 +1,70 @@
 /-
 C18 — computations leave their arguments untouched and are repeatable: the part carried by a theorem.
 
-Everything proved here is about the ownership model of `Model/C18.lean`: numpy's copy semantics are its axioms,
-the C kernels enter through their write-sets, the contents semantics is parametric in what the kernels compute.
-The model is tied to the code by the recorder shim of harness/c18.py (`run`, `safe`, `mark`, `kernels` requests of
-the driver are executed and compared on every run).
+Two models.  `Model/C18.lean`: the buffer-ownership DSL of ONE call (numpy's copy semantics are its axioms, the C
+kernels enter through their write-sets, the contents semantics is parametric in what the kernels compute).
+`Model/C18Obj.lean`: a Catchment receiver ACROSS calls (which array every attribute refers to, every public method
+with every way it can stop half-way, the caller overwriting what accessors hand out); histories are `List Op`.
+Both are tied to the code by harness/c18.py on every run: recorder shim at the Cython boundary (`run`, `safe`, `mark`,
+`kernels`), second call with read-only arguments (`pywritten`, `repeat`), aliasing of what is handed back (`results`),
+dtypes of Grid arguments (`retyped`), random object histories (`hist`).
 
 CLAUSE → THEOREMS → WHAT REMAINS OUTSIDE
 
 1. "leave the numeric arrays, series and data frames passed to them bit-for-bit unchanged (values, dtype, shape)"
-   * kernel-facing wrappers (every site where a buffer reaches C; cross-checked against the source on every run):
-     `soundness`, `soundness_except`, `written_args_private` (every program, every dtype / layout / container of every
-     argument, every allocator state), `caller_contents_unchanged` (every kernel semantics respecting the write-sets),
-     `safe_marks_nothing` (the executable marking semantics the driver runs), and one `<wrapper>_safe` per call site
-     (29), `delineateBoundary*_safe_except_receiver`, `pointsInsidePolygonOut_safe_except_output` with the witnesses
-     `..._writes_receiver` / `..._writes_output`.  Non-vacuity: `andersonDarlingAsarray_*`, `kdePinned_*`,
+   * kernel-facing wrappers (every site where a buffer reaches C; cross-checked against the source on every run) and
+     the pure-Python bodies that store in place into something derived from an argument (absolute_peak_error, lag,
+     monthly2daily, gsmooth, YeoJohnson.forward, lstsq, acf, iqr, kde, lhs): `soundness`, `soundness_except`,
+     `written_args_private` (every program, every dtype / layout / container of every argument, every allocator state),
+     `caller_contents_unchanged` (every kernel semantics respecting the write-sets), `safe_marks_nothing`, one
+     `<wrapper>_safe` per call site (42), `delineateBoundary*_safe_except_receiver`,
+     `pointsInsidePolygonOut_safe_except_output`, `kdeSeeded_safe_except_rng`, `lhs_safe_except_rng` with the witnesses
+     `..._writes_receiver` / `..._writes_output` / `kdeSeeded_advances_generator`.
+     Non-vacuity: `andersonDarlingAsarray_*`, `kdePinned_*`, `lstsqInterceptPinned_*`, `iqrOverwriteInput_*`,
      `accumulateWritesFlowdir_*`.
-   * outside: (a) that the DSL terms are the wrapper bodies and that numpy behaves as axiomatised — shim
-     correspondence; (b) dtype / shape of the caller's OBJECT (a view-or-copy model has no notion of rebinding an
-     attribute) and every function that never reaches a kernel — snapshot oracle only.
+   * dtype: `noRetype_keeps_dtypes` + `wrappers_noRetype` (no modelled wrapper but the four grid-level functions
+     changes the dtype of anything it is given), `accumulate_retypes`, `accumulateDefault_retypes`, `slope_retypes`,
+     `delineateRiver_retypes` (exactly which Grid arguments are converted, to what).
+   * what is handed back or kept: `returned_private`, `wrappers_return_private`, `*_stores_private` (Grid.data setter, clip,
+     apply, clone, Catchment.__init__): nothing of the caller's is returned or stored, so no LATER call or edit can reach
+     it; `pointsInsidePolygonOut_returns_caller`, `gridDataSetterNoCopy_*` show the check is load-bearing.
+   * receiver state (Catchment): `history_wf` (along every history two attributes never share a non-empty array),
+     `op_frame` / `history_frame` (every method, accepted or rejected, leaves every attribute outside its write-set as
+     it was: same array, same contents), `delineateBoundary_keeps_area`.
+   * outside: (a) that the DSL terms are the bodies and that numpy behaves as axiomatised — measured correspondence;
+     (b) shape of the caller's object and every function that never stores in place and never reaches a kernel —
+     snapshot oracle only.
 2. "grid arguments keep their cell values"
-   * `accumulate_safe`, `accumulateDefault_safe`, `slope_safe`, `delineateRiver_safe` with the `retype` statement
-     (the caller's grid is converted in place; the local keeps denoting the caller's cells), contents by
+   * `accumulate_safe`, `accumulateDefault_safe`, `slope_safe`, `delineateRiver_safe`, `gsmooth_safe` with the `retype`
+     statement (the caller's grid is converted in place; the local keeps denoting the caller's cells), contents by
      `caller_contents_unchanged`; `accumulateWritesFlowdir_writes_caller_grid` shows the flag is load-bearing.
-   * outside: Grid / Catchment methods that are pure Python — oracle only.
+   * outside: Grid methods that are pure Python and never store in place — oracle (+ Grid object histories).
 3. "calling the same function twice with the same arguments, and the same random seed, returns the same result"
-   * `runs_independent` (result depends on the caller's buffers only: not on the heap, not on the allocator),
+   * one call: `runs_independent` (result depends on the caller's buffers only: not on the heap, not on the allocator),
      `second_call_same_result`, `every_call_same_result` (any number of consecutive calls),
-     `second_call_after_editing_results` (the caller may overwrite what a call returned).
-   * outside: these are statements about the model (kernels are functions of their inputs there). Randomness
-     (np.random under a seed), module-level state, caches and work buffers of the real code are observed only:
-     two-call / third-call oracle and the history streams against a pristine interpreter.
+     `second_call_after_editing_results` + `second_call_after_editing_returned` (the caller may overwrite what a call
+     returned: its hypothesis is discharged by `returned_private`), `second_call_same_result_after_restore` (same SEED:
+     the generator state is a caller buffer the call may write; put back, the second call repeats the first).
+   * histories on a receiver: `delineateArea_answer` (what an accepted delineation stores is a function of THAT call's
+     arguments, from any earlier state), `computeFpl_answer`, `delineateBoundary_answer`,
+     `computeFpl_independent_of_interleaved_op` / `_of_boundary` (interleaving), `delineateBoundary_twice` (repeatable
+     although it sorts receiver state; hypothesis "sorting a sorted array changes nothing" shown necessary by an example),
+     fault paths `delineateArea_badOutlet_unchanged`, `delineateArea_kernelError_state`, `computeFpl_rejected_unchanged`,
+     `delineateBoundary_rejected_state`; `sharedArea_not_wf` / `sharedArea_boundary_changes_area` show `WF` is needed.
+   * outside: these are statements about the models (kernels are functions of their inputs there). Module-level state,
+     caches and work buffers of the real code are observed only: two-call / third-call oracle, history streams against a
+     pristine interpreter incl. call A → rejected call B → call A, twin-object oracle of the object histories.
 4. quantifier "every public function … x contiguous / strided, float / integer, array / pandas x two calls"
-   * theorems quantify over all kinds (`kinds : Nat → Kind` arbitrary) and all programs; the list of public entry
-     points is an inventory read from the current source on every run (harness), not a Lean object.
+   * theorems quantify over all kinds (`kinds : Nat → Kind` arbitrary), all programs, all operation lists and all
+     outcomes; the list of public entry points is an inventory read from the current source on every run (harness),
+     not a Lean object.
 
-Weaker than the clause, stated plainly: nothing here proves a fact about Python text; `Safe` theorems are decided
-on hand-written terms whose faithfulness is a measured correspondence, and `Kind` abstracts an argument to
-(viewable, dtype, C-contiguous).
+Weaker than the clause, stated plainly: nothing here proves a fact about Python text; `Safe` / `ReturnsPrivate` theorems
+are decided on hand-written terms whose faithfulness is a measured correspondence, `Kind` abstracts an argument to
+(viewable, dtype, C-contiguous), and the object model abstracts contents to what the kernels are said to compute.
 -/
 import HydroVerif.Lemmas.C18
+import HydroVerif.Lemmas.C18Obj
 namespace HydroVerif.C18
 
 /-! ### generic theorems -/
@@ -176,6 +201,459 @@ theorem safe_marks_nothing (p : Program) (h : Safe p) (kinds : Nat → Kind) (n 
   have := caller_contents_unchanged markSem [] p h kinds (fun _ => 0) 0 i (by simp)
   simp [this]
 
+
+/-! ### histories on one receiver (`Model/C18Obj.lean`): every list of operations, every outcome of every one -/
+
+/-- **The receiver stays well formed along every history**: whatever public methods are called, in whatever order,
+whatever the data make each of them do (accepted, empty area, rejected at any of its fault sites), and whatever the
+caller does to the arrays the accessors hand out: two attributes of the Catchment never refer to the same non-empty
+array. -/
+theorem history_wf {α} (sem : OSem α) (ops : List Op) (m0 : Mem α) : WF (orun sem ops m0).obj :=
+  wf_runFrom sem ops _ wf_new
+
+/-- **Frame of one operation.**  On a well-formed receiver an operation leaves every attribute outside its documented
+write-set alone: it refers to the same array (or is still `None`) and that array holds the same contents — also when
+the operation is rejected half-way, and also for `delineate_boundary`, whose kernel sorts an array of the receiver. -/
+theorem op_frame {α} (sem : OSem α) (s : OState α) (h : WF s.obj) (op : Op) (f : Field) (hf : f ∉ op.writes) :
+    (ostep sem s op).obj.slot f = s.obj.slot f ∧ (ostep sem s op).content f = s.content f := by
+  cases op with
+  | read g => exact ⟨rfl, rfl⟩
+  | callerEdit g =>
+    have hfg : f ≠ g := by simpa [Op.writes] using hf
+    simp only [ostep]
+    cases hs : s.obj.slot g with
+    | none => exact ⟨rfl, rfl⟩
+    | some b => exact ⟨by simp, by simpa [OState.content] using store_content_other h hs hfg sem.edit⟩
+  | computeFpl o =>
+    have hfg : f ≠ .fpl := by simpa [Op.writes] using hf
+    simp only [ostep]
+    split
+    · cases o
+      · exact ⟨by simp [alloc_slot_other _ _ hfg], by simpa [OState.content] using alloc_content_other h _ hfg⟩
+      · exact ⟨rfl, rfl⟩
+    · exact ⟨rfl, rfl⟩
+  | delineateBoundary mask o =>
+    simp only [Op.writes, List.mem_cons, List.not_mem_nil, or_false, not_or] at hf
+    obtain ⟨h1, h2, h3⟩ := hf
+    simp only [ostep]
+    split
+    · rename_i a b ha hb
+      split
+      · exact ⟨rfl, rfl⟩
+      · have hst : (s.store b sem.sort).content f = s.content f := store_content_other h hb h1 sem.sort
+        have hwf : WF (s.store b sem.sort).obj := by simpa using h
+        cases o
+        · refine ⟨by simp [alloc_slot_other _ _ h3, alloc_slot_other _ _ h2], ?_⟩
+          have e1 := alloc_content_other hwf (sem.boundary ((s.store b sem.sort).mem b) mask) h2
+          have e2 := alloc_content_other (wf_alloc hwf .boundary (sem.boundary ((s.store b sem.sort).mem b) mask))
+            (sem.xy (sem.boundary ((s.store b sem.sort).mem b) mask)) h3
+          simpa [OState.content] using e2.trans (e1.trans hst)
+        · exact ⟨by simp, by simpa [OState.content] using hst⟩
+    · exact ⟨rfl, rfl⟩
+  | delineateArea wi arg o =>
+    simp only [Op.writes, List.mem_cons, List.not_mem_nil, or_false, not_or] at hf
+    obtain ⟨h1, h2, h3, h4⟩ := hf
+    have hp := areaPrologue_content sem h wi arg h1 h2
+    have hpw := areaPrologue_wf sem h wi arg
+    have hps : (areaPrologue sem s wi arg).obj.slot f = s.obj.slot f := by
+      unfold areaPrologue
+      cases wi <;> simp [OState.alloc, Obj.set, h1, h2]
+    cases o with
+    | badOutlet => exact ⟨rfl, rfl⟩
+    | badInlets =>
+      exact ⟨by simp [ostep, alloc_slot_other _ _ h1],
+        by simpa [ostep, OState.content] using alloc_content_other h (sem.outlet arg) h1⟩
+    | badNval => exact ⟨by simpa [ostep] using hps, by simpa [ostep, OState.content] using hp⟩
+    | kernelError =>
+      refine ⟨by simpa [ostep, Obj.set, h3, h4] using hps, ?_⟩
+      simpa [ostep, OState.content, Obj.set, h3, h4] using hp
+    | cells =>
+      simp only [ostep]
+      refine ⟨by simpa [alloc_slot_other _ _ h4, alloc_slot_other _ _ h3] using hps, ?_⟩
+      have e1 := alloc_content_other hpw (sem.area arg) h3
+      have e2 := alloc_content_other (wf_alloc hpw .area (sem.area arg)) (sem.fill (sem.area arg)) h4
+      simpa [OState.content] using e2.trans (e1.trans hp)
+    | empty =>
+      simp only [ostep]
+      have e1 := alloc_content_other hpw sem.emptyArr h3
+      have e0 : ((areaPrologue sem s wi arg).alloc .area sem.emptyArr).obj.slot f = s.obj.slot f := by
+        rw [alloc_slot_other _ _ h3]; exact hps
+      refine ⟨by simpa [Obj.set, h4] using e0, ?_⟩
+      have := e1.trans hp
+      simpa [OState.content, Obj.set, h4] using this
+
+/-- **Frame along a history.**  After ANY history on a new Catchment, ANY further list of operations none of which
+has attribute `f` in its write-set leaves what the accessor of `f` hands out exactly as it was. -/
+theorem history_frame {α} (sem : OSem α) (ops : List Op) (m0 : Mem α) (more : List Op) (f : Field)
+    (hf : ∀ op ∈ more, f ∉ op.writes) :
+    (orunFrom sem (orun sem ops m0) more).content f = (orun sem ops m0).content f ∧
+      (orunFrom sem (orun sem ops m0) more).obj.slot f = (orun sem ops m0).obj.slot f := by
+  have key : ∀ (more : List Op) (s : OState α), WF s.obj → (∀ op ∈ more, f ∉ op.writes) →
+      (orunFrom sem s more).content f = s.content f ∧ (orunFrom sem s more).obj.slot f = s.obj.slot f := by
+    intro more
+    induction more with
+    | nil => intro s _ _; exact ⟨rfl, rfl⟩
+    | cons op more ih =>
+      intro s hs hm
+      have h1 := op_frame sem s hs op f (hm op (by simp))
+      have h2 := ih (ostep sem s op) (wf_step sem s hs op) (fun o ho => hm o (by simp [ho]))
+      exact ⟨h2.1.trans h1.2, h2.2.trans h1.1⟩
+  exact key more _ (history_wf sem ops m0) hf
+
+/-! fault paths: the state a rejected operation leaves behind -/
+
+/-- a delineation rejected before anything is assigned leaves the receiver and the heap exactly as they were -/
+theorem delineateArea_badOutlet_unchanged {α} (sem : OSem α) (s : OState α) (wi : Bool) (arg : Nat) :
+    (ostep sem s (.delineateArea wi arg .badOutlet)).obj = s.obj ∧
+      (ostep sem s (.delineateArea wi arg .badOutlet)).mem = s.mem ∧
+      (ostep sem s (.delineateArea wi arg .badOutlet)).raised = true := ⟨rfl, rfl, rfl⟩
+
+/-- a delineation the kernel rejects raises and leaves area and filled area `None` (the stated state), with boundary,
+boundary coordinates and flow path lengths exactly as they were -/
+theorem delineateArea_kernelError_state {α} (sem : OSem α) (s : OState α) (h : WF s.obj) (wi : Bool) (arg : Nat) :
+    let s' := ostep sem s (.delineateArea wi arg .kernelError)
+    s'.raised = true ∧ s'.obj.slot .area = none ∧ s'.obj.slot .filled = none ∧
+      ∀ f, f = .boundary ∨ f = .xyboundary ∨ f = .fpl → s'.obj.slot f = s.obj.slot f ∧ s'.content f = s.content f := by
+  refine ⟨rfl, by simp [ostep, Obj.set], by simp [ostep, Obj.set], ?_⟩
+  intro f hf
+  apply op_frame sem s h
+  rcases hf with hf | hf | hf <;> simp [hf, Op.writes]
+
+/-- a rejected `compute_flowpathlengths` (attribute missing, or the kernel returns an error) changes nothing at all -/
+theorem computeFpl_rejected_unchanged {α} (sem : OSem α) (s : OState α) (o : KernOut)
+    (hr : (ostep sem s (.computeFpl o)).raised = true) :
+    (ostep sem s (.computeFpl o)).obj = s.obj ∧ (ostep sem s (.computeFpl o)).mem = s.mem := by
+  rcases computeFpl_cases sem s o with h | ⟨a, out, _, _, _, h⟩
+  · rw [h]; exact ⟨rfl, rfl⟩
+  · rw [h] at hr; simp [OState.done] at hr
+
+/-- a rejected `delineate_boundary` re-assigns no attribute; at most the ORDER of the filled cells has changed -/
+theorem delineateBoundary_rejected_state {α} (sem : OSem α) (s : OState α) (h : WF s.obj) (mask : Option Nat) (o : KernOut)
+    (hr : (ostep sem s (.delineateBoundary mask o)).raised = true) :
+    (ostep sem s (.delineateBoundary mask o)).obj = s.obj ∧
+      ∀ f, f ≠ .filled → (ostep sem s (.delineateBoundary mask o)).content f = s.content f := by
+  rcases delineateBoundary_cases sem s mask o with h1 | ⟨a, b, _, hb, _, ⟨_, h1⟩ | ⟨_, h1⟩⟩
+  · rw [h1]; exact ⟨rfl, fun _ _ => rfl⟩
+  · rw [h1]
+    refine ⟨by simp, ?_⟩
+    intro f hf
+    simpa [OState.content] using store_content_other h hb hf sem.sort
+  · rw [h1] at hr; simp [OState.done] at hr
+
+/-! answers: what a method stores is a function of its arguments and of what it reads — not of the history -/
+
+/-- **`delineate_area` forgets the history.**  After an accepted delineation the outlet, the inlets, the area and the
+filled area handed out by the accessors are functions of the arguments of THAT call only — whatever state the
+receiver was in (any earlier delineation, accepted or rejected, with or without inlets). -/
+theorem delineateArea_answer {α} (sem : OSem α) (s : OState α) (h : WF s.obj) (wi : Bool) (arg : Nat) :
+    let s' := ostep sem s (.delineateArea wi arg .cells)
+    s'.raised = false ∧ s'.content .outlet = some (sem.outlet arg) ∧
+      s'.content .inlets = (if wi then some (sem.inlets arg) else none) ∧
+      s'.content .area = some (sem.area arg) ∧ s'.content .filled = some (sem.fill (sem.area arg)) := by
+  have hpw := areaPrologue_wf sem h wi arg
+  have hw3 := wf_alloc hpw .area (sem.area arg)
+  have ho : (areaPrologue sem s wi arg).content .outlet = some (sem.outlet arg) := by
+    unfold areaPrologue
+    cases wi
+    · simp [OState.content, OState.alloc, Obj.set, memSet]
+    · simp only [if_true]
+      rw [alloc_content_other (wf_alloc h _ _) _ (by decide)]
+      simp [OState.content, OState.alloc, Obj.set, memSet]
+  have hi : (areaPrologue sem s wi arg).content .inlets = (if wi then some (sem.inlets arg) else none) := by
+    unfold areaPrologue
+    cases wi <;> simp [OState.content, OState.alloc, Obj.set, memSet]
+  refine ⟨rfl, ?_, ?_, ?_, ?_⟩
+  · simp only [ostep]
+    have e := (alloc_content_other hw3 (sem.fill (sem.area arg)) (f := .filled) (g := .outlet) (by decide)).trans
+      (alloc_content_other hpw (sem.area arg) (f := .area) (g := .outlet) (by decide))
+    simpa [OState.content] using e.trans ho
+  · simp only [ostep]
+    have e := (alloc_content_other hw3 (sem.fill (sem.area arg)) (f := .filled) (g := .inlets) (by decide)).trans
+      (alloc_content_other hpw (sem.area arg) (f := .area) (g := .inlets) (by decide))
+    simpa [OState.content] using e.trans hi
+  · simp only [ostep]
+    have e := alloc_content_other hw3 (sem.fill (sem.area arg)) (f := .filled) (g := .area) (by decide)
+    have e2 : ((areaPrologue sem s wi arg).alloc .area (sem.area arg)).content .area = some (sem.area arg) := by
+      simp [OState.content, OState.alloc, Obj.set, memSet]
+    simpa [OState.content] using e.trans e2
+  · simp [ostep, OState.content, OState.alloc, Obj.set, memSet, OState.done]
+
+/-- what `compute_flowpathlengths` stores: a function of the outlet and of the area cells the accessors hand out -/
+theorem computeFpl_answer {α} (sem : OSem α) (s : OState α) :
+    (ostep sem s (.computeFpl .ok)).content .fpl =
+      match s.content .area, s.content .outlet with
+      | some a, some o => some (sem.fpl o a)
+      | _, _ => s.content .fpl := by
+  simp only [ostep, OState.content]
+  cases ha : s.obj.slot .area <;> cases ho : s.obj.slot .outlet <;>
+    simp [OState.alloc, Obj.set, memSet, OState.done, OState.fail]
+
+/-- **Interleaving.**  On a well-formed receiver, calling any operation `b` that has neither the area, the outlet nor
+the flow path lengths in its write-set (`delineate_boundary` with any outcome, any accessor, any read-only method)
+before `compute_flowpathlengths` does not change the flow path lengths that call stores. -/
+theorem computeFpl_independent_of_interleaved_op {α} (sem : OSem α) (s : OState α) (h : WF s.obj) (b : Op)
+    (ha : Field.area ∉ b.writes) (ho : Field.outlet ∉ b.writes) (hf : Field.fpl ∉ b.writes) :
+    (ostep sem (ostep sem s b) (.computeFpl .ok)).content .fpl = (ostep sem s (.computeFpl .ok)).content .fpl := by
+  rw [computeFpl_answer, computeFpl_answer, (op_frame sem s h b .area ha).2, (op_frame sem s h b .outlet ho).2,
+    (op_frame sem s h b .fpl hf).2]
+
+/-- in particular: delineating the boundary in between (whose kernel sorts the filled cells in place) -/
+theorem computeFpl_independent_of_boundary {α} (sem : OSem α) (s : OState α) (h : WF s.obj) (mask : Option Nat)
+    (o : KernOut) :
+    (ostep sem (ostep sem s (.delineateBoundary mask o)) (.computeFpl .ok)).content .fpl =
+      (ostep sem s (.computeFpl .ok)).content .fpl :=
+  computeFpl_independent_of_interleaved_op sem s h _ (by simp [Op.writes]) (by simp [Op.writes]) (by simp [Op.writes])
+
+/-- `delineate_boundary` leaves the area cells alone (same array, same contents, same order) on every well-formed
+receiver — hence after every history -/
+theorem delineateBoundary_keeps_area {α} (sem : OSem α) (ops : List Op) (m0 : Mem α) (mask : Option Nat) (o : KernOut) :
+    (ostep sem (orun sem ops m0) (.delineateBoundary mask o)).content .area = (orun sem ops m0).content .area :=
+  (op_frame sem _ (history_wf sem ops m0) _ .area (by simp [Op.writes])).2
+
+/-- what `delineate_boundary` stores: a function of the SORTED filled cells and of the mask -/
+theorem delineateBoundary_answer {α} (sem : OSem α) (s : OState α) (h : WF s.obj) (mask : Option Nat) (a b : Buf)
+    (ha : s.obj.slot .area = some a) (hb : s.obj.slot .filled = some b) (hz : b ∉ s.obj.zero) :
+    let s' := ostep sem s (.delineateBoundary mask .ok)
+    s'.raised = false ∧ s'.content .boundary = some (sem.boundary (sem.sort (s.mem b)) mask) ∧
+      s'.content .filled = some (sem.sort (s.mem b)) ∧ s'.obj.slot .filled = some b ∧ s'.obj.zero = s.obj.zero := by
+  have hwf : WF (s.store b sem.sort).obj := by simpa using h
+  have hm : (s.store b sem.sort).mem b = sem.sort (s.mem b) := store_mem_same s b sem.sort hz
+  have hstep : ostep sem s (.delineateBoundary mask .ok) =
+      (((s.store b sem.sort).alloc .boundary (sem.boundary (sem.sort (s.mem b)) mask)).alloc .xyboundary
+        (sem.xy (sem.boundary (sem.sort (s.mem b)) mask))).done := by
+    simp [ostep, ha, hb, hz, hm]
+  intro s'
+  have hs' : s' = _ := hstep
+  rw [hs']
+  refine ⟨rfl, ?_, ?_, ?_, ?_⟩
+  · have e := alloc_content_other (wf_alloc hwf .boundary (sem.boundary (sem.sort (s.mem b)) mask))
+      (sem.xy (sem.boundary (sem.sort (s.mem b)) mask)) (f := .xyboundary) (g := .boundary) (by decide)
+    have e2 : ((s.store b sem.sort).alloc .boundary (sem.boundary (sem.sort (s.mem b)) mask)).content .boundary =
+        some (sem.boundary (sem.sort (s.mem b)) mask) := by
+      simp [OState.content, OState.alloc, Obj.set, memSet]
+    simpa [OState.content] using e.trans e2
+  · have hbf : (s.store b sem.sort).content .filled = some (sem.sort (s.mem b)) := by
+      simp [OState.content, hb, hm]
+    have e1 := alloc_content_other hwf (sem.boundary (sem.sort (s.mem b)) mask) (f := .boundary) (g := .filled)
+      (by decide)
+    have e2 := alloc_content_other (wf_alloc hwf .boundary (sem.boundary (sem.sort (s.mem b)) mask))
+      (sem.xy (sem.boundary (sem.sort (s.mem b)) mask)) (f := .xyboundary) (g := .filled) (by decide)
+    simpa [OState.content] using e2.trans (e1.trans hbf)
+  · simp [OState.alloc, Obj.set, hb]
+  · simp [OState.alloc, Obj.set]
+
+/-- the hypotheses of `delineateBoundary_answer` are the code's own guards: without an area, without filled cells,
+or with an empty area, `delineate_boundary` raises and leaves the receiver and the heap exactly as they were -/
+theorem delineateBoundary_guard {α} (sem : OSem α) (s : OState α) (mask : Option Nat) (o : KernOut)
+    (hg : s.obj.slot .area = none ∨ s.obj.slot .filled = none ∨ ∃ b, s.obj.slot .filled = some b ∧ b ∈ s.obj.zero) :
+    (ostep sem s (.delineateBoundary mask o)).raised = true ∧ (ostep sem s (.delineateBoundary mask o)).obj = s.obj ∧
+      (ostep sem s (.delineateBoundary mask o)).mem = s.mem := by
+  rcases delineateBoundary_cases sem s mask o with h | ⟨a, b, ha, hb, hz, _⟩
+  · rw [h]; exact ⟨rfl, rfl, rfl⟩
+  · rcases hg with hg | hg | ⟨b', hb', hz'⟩
+    · rw [ha] at hg; cases hg
+    · rw [hb] at hg; cases hg
+    · rw [hb] at hb'; cases hb'; exact absurd hz' hz
+
+/-- the empty area: both accessors hand out the same zero-length array, again whatever the receiver held before -/
+theorem delineateArea_empty_answer {α} (sem : OSem α) (s : OState α) (wi : Bool) (arg : Nat) :
+    let s' := ostep sem s (.delineateArea wi arg .empty)
+    s'.raised = false ∧ s'.content .area = some sem.emptyArr ∧ s'.content .filled = some sem.emptyArr ∧
+      s'.obj.slot .area = s'.obj.slot .filled ∧ ∀ b, s'.obj.slot .area = some b → b ∈ s'.obj.zero := by
+  refine ⟨rfl, ?_, ?_, ?_, ?_⟩
+  · simp [ostep, OState.content, OState.alloc, Obj.set, memSet]
+  · simp [ostep, OState.content, OState.alloc, Obj.set, memSet]
+  · simp [ostep, OState.alloc, Obj.set]
+  · intro b hb
+    simp [ostep, OState.alloc, Obj.set] at hb ⊢
+    simp [hb]
+
+/-- **`delineate_boundary` is repeatable** although it sorts receiver state in place: when sorting a sorted array
+changes nothing (true of `qsort`), the second of two consecutive calls stores the same boundary as the first. -/
+theorem delineateBoundary_twice {α} (sem : OSem α) (hs : ∀ x, sem.sort (sem.sort x) = sem.sort x) (s : OState α)
+    (h : WF s.obj) (mask : Option Nat) (a b : Buf) (ha : s.obj.slot .area = some a) (hb : s.obj.slot .filled = some b)
+    (hz : b ∉ s.obj.zero) :
+    let s1 := ostep sem s (.delineateBoundary mask .ok)
+    (ostep sem s1 (.delineateBoundary mask .ok)).content .boundary = s1.content .boundary := by
+  intro s1
+  have r1 := delineateBoundary_answer sem s h mask a b ha hb hz
+  have hw1 : WF s1.obj := wf_step sem s h _
+  have ha1 : s1.obj.slot .area = some a := by
+    rw [(op_frame sem s h (.delineateBoundary mask .ok) .area (by simp [Op.writes])).1]; exact ha
+  have hb1 : s1.obj.slot .filled = some b := r1.2.2.2.1
+  have hz1 : b ∉ s1.obj.zero := by rw [r1.2.2.2.2]; exact hz
+  have r2 := delineateBoundary_answer sem s1 hw1 mask a b ha1 hb1 hz1
+  have hmem : s1.mem b = sem.sort (s.mem b) := by
+    have h3 : s1.content .filled = some (sem.sort (s.mem b)) := r1.2.2.1
+    unfold OState.content at h3
+    rw [hb1] at h3
+    simpa using h3
+  rw [r2.2.1, r1.2.1, hmem, hs]
+
+/-! the hypotheses are needed: the separation invariant (`WF`) and the idempotent sort -/
+
+/-- without separation the frame fails: on a receiver whose area and filled area are ONE non-empty array (what an
+"area without holes needs no second vector" edit produces), `delineate_boundary` changes the area cells -/
+theorem sharedArea_not_wf {α} (v : α) : ¬ WF (sharedAreaState v).obj := by
+  intro h
+  have := h.sep .area .filled (.fresh 1) (by decide) rfl rfl
+  simp [sharedAreaState] at this
+
+theorem sharedArea_boundary_changes_area :
+    (ostep omarkSem (sharedAreaState 7) (.delineateBoundary none .ok)).content .area = some 8 ∧
+      (sharedAreaState (7 : Nat)).content .area = some 7 := by decide
+
+/-! non-vacuity of the object-level statements -/
+
+/-- a history with an empty area, a rejected delineation, caller edits and the methods in every order: well formed,
+and the flow path lengths do not depend on whether the boundary was delineated in between -/
+example :
+    let h : List Op := [.delineateArea true 1 .cells, .computeFpl .ok, .delineateArea false 2 .kernelError,
+      .delineateArea false 3 .empty, .delineateBoundary none .ok, .delineateArea true 4 .cells, .callerEdit .filled]
+    let s := orun omarkSem h (fun _ => 0)
+    s.obj.slot .area = some (.fresh 10) ∧ s.obj.slot .filled = some (.fresh 11) ∧ s.content .filled = some 1 ∧
+      (ostep omarkSem (ostep omarkSem s (.delineateBoundary none .ok)) (.computeFpl .ok)).content .fpl =
+        (ostep omarkSem s (.computeFpl .ok)).content .fpl ∧
+      (ostep omarkSem s (.delineateBoundary none .ok)).content .filled = some 2 ∧
+      (ostep omarkSem s (.delineateBoundary none .ok)).content .area = some 0 := by decide
+
+/-- the condition of the interleaving theorem is needed: an operation that has the area in its write-set (the caller
+reversing the cells the accessor handed out) does change what `compute_flowpathlengths` stores -/
+example :
+    let sem : OSem Nat := { omarkSem with fpl := fun o a => o + 10 * a, area := fun _ => 3 }
+    let s := orun sem [.delineateArea false 0 .cells] (fun _ => 0)
+    (ostep sem s (.computeFpl .ok)).content .fpl = some 30 ∧
+      (ostep sem (ostep sem s (.callerEdit .area)) (.computeFpl .ok)).content .fpl = some 40 ∧
+      (ostep sem (ostep sem s (.callerEdit .filled)) (.computeFpl .ok)).content .fpl = some 30 := by decide
+
+/-- the empty area: filled area and area are the same zero-length array, `delineate_boundary` is rejected and the
+receiver is untouched -/
+example :
+    let s := orun omarkSem [.delineateArea false 0 .empty] (fun _ => 0)
+    s.obj.slot .area = s.obj.slot .filled ∧ s.obj.slot .area = some (.fresh 1) ∧
+      (ostep omarkSem s (.delineateBoundary none .ok)).raised = true ∧
+      (ostep omarkSem s (.callerEdit .area)).content .filled = some 0 := by decide
+
+/-- a sort that is not idempotent (the marking instance counts stores) gives another boundary argument the second
+time: the hypothesis of `delineateBoundary_twice` is used -/
+example :
+    let s := orun omarkSem [.delineateArea false 0 .cells, .delineateBoundary none .ok] (fun _ => 0)
+    s.content .filled = some 1 ∧ (ostep omarkSem s (.delineateBoundary none .ok)).content .filled = some 2 := by decide
+
+
+/-! ### repeatability when the call is entitled to write something of the caller's (the random generator, an output
+array, receiver state) -/
+
+/-- **Same seed, same result.**  Let a wrapper be entitled to write the caller buffers in `allowed` (numpy's global
+random generator `rngState` for the functions that draw numbers; a caller-supplied work / output array) and nothing
+else. If, after a first call, the caller puts back what those buffers held (`np.random.seed(seed)` again) — whatever
+the call left everywhere else on the heap — a second call with the same arguments performs the same kernel calls and
+leaves the same contents in every local (the returned one included) and in every caller buffer as the first. -/
+theorem second_call_same_result_after_restore {α : Type} (sem : Sem α) (allowed : List Nat) (p : Program)
+    (h : SafeExcept allowed p) (kinds : Nat → Kind) (m0 : Mem α) :
+    let r1 := mrun sem p kinds m0 0
+    let restored : Mem α := fun b => match b with
+      | .caller i => if i ∈ allowed then m0 (.caller i) else r1.mem (.caller i)
+      | b => r1.mem b
+    let r2 := mrun sem p kinds restored (0 + r1.st.next)
+    r2.st.events = r1.st.events ∧ (∀ x, r2.mem (r2.st.env x).buf = r1.mem (r1.st.env x).buf) ∧
+      ∀ i, r2.mem (.caller i) = r1.mem (.caller i) := by
+  intro r1 restored r2
+  have hm : ∀ i, restored (.caller i) = m0 (.caller i) := by
+    intro i
+    by_cases hi : i ∈ allowed
+    · simp [restored, hi]
+    · simp only [restored, hi, if_false]
+      exact caller_contents_unchanged sem allowed p h kinds m0 0 i hi
+  exact runs_independent sem p kinds m0 restored 0 r1.st.next hm
+
+/-- the functions that draw random numbers write the generator's state and no other caller buffer -/
+theorem kdeSeeded_safe_except_rng : SafeExcept [rngState] kdeSeeded := by decide
+theorem lhs_safe_except_rng : SafeExcept [rngState] lhs := by decide
+theorem kdeSeeded_not_safe : ¬ Safe kdeSeeded := by decide
+/-- … and they do write it, whatever the arguments are: without re-seeding, the second call starts elsewhere -/
+theorem kdeSeeded_advances_generator (kinds : Nat → Kind) : Buf.caller rngState ∈ (run kdeSeeded kinds).written := by
+  have h : kdeSeeded = kdeSeeded.take 2 ++ kdeSeeded.drop 2 := (List.take_append_drop 2 _).symm
+  rw [run, h]
+  apply written_of_prefix
+  cases hc : anyLayout.sat (kinds 0) <;> simp [runFrom, kdeSeeded, step, init, upd, hc, rngState]
+
+
+/-! ### what a call hands back or keeps -/
+
+/-- **Nothing of the caller's is handed back or kept.**  If the syntactic check says that the locals a wrapper returns
+(or stores into its receiver) were made inside the call, they hold private buffers — for every dtype / layout /
+container of every argument. A later in-place write through them (the caller editing a result, `Grid.fill` on the
+receiver that stored them) therefore cannot reach a caller buffer. -/
+theorem returned_private (p : Program) (xs : List Nat) (h : ReturnsPrivate p xs) (kinds : Nat → Kind) (x : Nat)
+    (hx : x ∈ xs) : ((run p kinds).env x).buf.isFresh = true := by
+  have hok := absOK_run p absInit (init kinds) (absOK_init kinds 0) x
+  have hnone : (absRun absInit p x).isNone = true := by
+    have := (List.all_eq_true.mp h) x hx
+    simpa using this
+  cases ha : absRun absInit p x with
+  | none => rw [ha] at hok; exact hok
+  | some r => rw [ha] at hnone; simp at hnone
+
+/-- **The caller may overwrite what a call returned** — the hypothesis of `second_call_after_editing_results` holds for
+edits of returned arrays: after a `Safe` call whose results are private, storing ANY contents into the buffer of a
+returned local leaves every caller buffer as it was, and the next call gives the original answer again. -/
+theorem second_call_after_editing_returned {α : Type} (sem : Sem α) (p : Program) (h : Safe p) (xs : List Nat)
+    (hr : ReturnsPrivate p xs) (kinds : Nat → Kind) (m0 : Mem α) (x : Nat) (hx : x ∈ xs) (v : α) :
+    let r1 := mrun sem p kinds m0 0
+    let r2 := mrun sem p kinds (memSet r1.mem (r1.st.env x).buf v) (0 + r1.st.next)
+    r2.st.events = r1.st.events ∧ (∀ y, r2.mem (r2.st.env y).buf = r1.mem (r1.st.env y).buf) ∧
+      ∀ i, r2.mem (.caller i) = m0 (.caller i) := by
+  intro r1 r2
+  apply second_call_after_editing_results sem p h kinds m0
+  intro i
+  have hf : ((run p kinds).env x).buf.isFresh = true := returned_private p xs hr kinds x hx
+  have hst : r1.st = run p kinds := mrunFrom_st sem p _
+  have hne : Buf.caller i ≠ (r1.st.env x).buf := by
+    intro e
+    rw [hst] at e
+    rw [← e] at hf
+    simp [Buf.isFresh] at hf
+  show memSet r1.mem (r1.st.env x).buf v (.caller i) = r1.mem (.caller i)
+  simp [memSet, hne]
+
+/-- every modelled wrapper except the one with a caller-supplied OUTPUT array hands back private buffers only -/
+theorem wrappers_return_private : ∀ w ∈ wrappers, w.1 ∉ ["points_inside_polygon_out", "grid_data_setter_nocopy"] →
+    ReturnsPrivate w.2 ((results.lookup w.1).getD []) := by decide
+
+/-- `points_inside_polygon(inside=...)` returns the caller's own array … -/
+theorem pointsInsidePolygonOut_returns_caller (kinds : Nat → Kind) :
+    resultCallers "points_inside_polygon_out" pointsInsidePolygonOut kinds = [2] := by
+  simp [resultCallers, results, List.lookup, run, runFrom, pointsInsidePolygonOut, step, init, upd, Buf.callerIdx]
+
+/-- … and a data setter that converts with `copy=False` is rejected: for a C-contiguous array the grid keeps the caller's
+own buffer, which `Grid.fill` / `Grid.__setitem__` then write -/
+theorem gridDataSetterNoCopy_not_private : ¬ ReturnsPrivate gridDataSetterNoCopy [11] := by decide
+theorem gridDataSetterNoCopy_keeps_caller (kinds : Nat → Kind) (hv : (kinds 0).view = true) (hc : (kinds 0).contig = true) :
+    ((run gridDataSetterNoCopy kinds).env 11).buf = .caller 0 := by
+  simp [run, runFrom, gridDataSetterNoCopy, step, init, upd, Cond.sat, anyLayout, cContig, hv, hc]
+
+/-! ### dtype of the objects the caller passed -/
+
+/-- a body that converts no object in place leaves the dtype of everything the caller passed as it was -/
+theorem noRetype_keeps_dtypes (p : Program) (h : noRetype p = true) (kinds : Nat → Kind) (i : Nat) :
+    callerDType (run p kinds) kinds i = (kinds i).dt := by
+  have : (run p kinds).retyped = [] := runFrom_retyped_of_noRetype p (init kinds) h
+  simp [callerDType, this]
+
+/-- every modelled wrapper except the four grid-level functions is such a body -/
+theorem wrappers_noRetype : ∀ w ∈ wrappers, w.1 ∉ retypingWrappers → noRetype w.2 = true := by decide
+
+/-- the grid-level functions convert exactly these Grid arguments, to these dtypes, whatever they were -/
+theorem accumulate_retypes (kinds : Nat → Kind) : (run accumulate kinds).retyped = [(1, .f64), (0, .i64)] := by
+  simp [run, runFrom, accumulate, step, init, upd]
+theorem accumulateDefault_retypes (kinds : Nat → Kind) : (run accumulateDefault kinds).retyped = [(0, .i64)] := by
+  simp [run, runFrom, accumulateDefault, step, init, upd]
+theorem slope_retypes (kinds : Nat → Kind) : (run slope kinds).retyped = [(1, .f64), (0, .i64)] := by
+  simp [run, runFrom, slope, step, init, upd]
+theorem delineateRiver_retypes (kinds : Nat → Kind) : (run delineateRiver kinds).retyped = [(0, .i64)] := by
+  simp [run, runFrom, delineateRiver, step, init, upd]
+
 /-! ### the wrappers of hydrodiy (one obligation per kernel call site; decided: the check is syntactic) -/
 
 theorem aggregate_safe : Safe aggregate := by decide
@@ -207,6 +685,26 @@ theorem voronoi_safe : Safe voronoi := by decide
 theorem slope_safe : Safe slope := by decide
 theorem pointsInsidePolygon_safe : Safe pointsInsidePolygon := by decide
 theorem kdeFixed_safe : Safe kdeFixed := by decide
+
+/-! pure-Python bodies that store in place into something derived from an argument -/
+theorem absolutePeakError_safe : Safe absolutePeakError := by decide
+theorem lag_safe : Safe lag := by decide
+theorem monthly2daily_safe : Safe monthly2daily := by decide
+theorem gsmooth_safe : Safe gsmooth := by decide
+theorem yeoJohnsonForward_safe : Safe yeoJohnsonForward := by decide
+theorem lstsqIntercept_safe : Safe lstsqIntercept := by decide
+theorem acf_safe : Safe acf := by decide
+theorem iqr_safe : Safe iqr := by decide
+theorem gridDataSetter_safe : Safe gridDataSetter := by decide
+theorem gridClip_safe : Safe gridClip := by decide
+theorem gridClone_safe : Safe gridClone := by decide
+theorem gridApply_safe : Safe gridApply := by decide
+theorem catchmentInit_safe : Safe catchmentInit := by decide
+theorem lag_returns_private : ReturnsPrivate lag [10] := by decide
+theorem gridDataSetter_stores_private : ReturnsPrivate gridDataSetter [11] := by decide
+theorem gridClip_stores_private : ReturnsPrivate gridClip [11] := by decide
+theorem gridApply_stores_private : ReturnsPrivate gridApply [12] := by decide
+theorem catchmentInit_stores_private : ReturnsPrivate catchmentInit [10] := by decide
 
 /-! wrappers that write a caller buffer by design: the check fails, the exact exception set is proved,
 and the write is exhibited for EVERY kind of argument (the buffer goes to the kernel as it is) -/
@@ -248,6 +746,15 @@ theorem andersonDarlingAsarray_other_dtype (kinds : Nat → Kind) (hd : (kinds 0
   cases v <;> cases d <;>
     simp_all [run, runFrom, andersonDarlingAsarray, step, init, upd, Cond.sat, anyLayout, freshKind]
 
+/-- … and so is anything `np.atleast_1d` has to convert (a list, a frame of mixed columns), whatever its dtype -/
+theorem andersonDarlingAsarray_converted_kept (kinds : Nat → Kind) (hv : (kinds 0).view = false) :
+    Buf.caller 0 ∉ (run andersonDarlingAsarray kinds).written := by
+  rcases hk : kinds 0 with ⟨v, d, c⟩
+  rw [hk] at hv
+  simp only at hv
+  subst hv
+  cases d <;> simp_all [run, runFrom, andersonDarlingAsarray, step, init, upd, Cond.sat, anyLayout, freshKind]
+
 /-- the grid functions convert the caller's grid in place (`flowdir.dtype = np.int64`): the buffer the kernel
 receives IS the caller's grid data, so `accumulate_safe` rests on the kernel reading it only; a kernel that
 stores into it is rejected, and the caller's flow-direction grid is written whatever its dtype -/
@@ -262,6 +769,26 @@ theorem kdePinned_not_safe : ¬ Safe kdePinned := by decide
 theorem kdePinned_writes_caller (kinds : Nat → Kind) (hv : (kinds 0).view = true) :
     Buf.caller 0 ∈ (run kdePinned kinds).written := by
   simp [run, runFrom, kdePinned, step, init, upd, Cond.sat, anyLayout, hv]
+
+/-- … and only then: a list (or anything `np.asarray` has to convert) is not touched -/
+theorem kdePinned_converted_argument_kept (kinds : Nat → Kind) (hv : (kinds 0).view = false) :
+    Buf.caller 0 ∉ (run kdePinned kinds).written := by
+  simp [run, runFrom, kdePinned, step, init, upd, Cond.sat, anyLayout, hv]
+
+/-- `sutils.lstsq(add_intercept=True)` as pinned (the column was added to the caller's frame): rejected, and the
+caller's frame is written whatever it holds -/
+theorem lstsqInterceptPinned_not_safe : ¬ Safe lstsqInterceptPinned := by decide
+theorem lstsqInterceptPinned_writes_caller (kinds : Nat → Kind) :
+    Buf.caller 0 ∈ (run lstsqInterceptPinned kinds).written := by
+  simp [run, runFrom, lstsqInterceptPinned, step, init, upd]
+
+/-- `np.nanpercentile(ref[i, :], perc, overwrite_input=True)` in `metrics.iqr`: rejected, and the caller's matrix is
+written exactly when `np.atleast_2d` hands its buffer through -/
+theorem iqrOverwriteInput_not_safe : ¬ Safe iqrOverwriteInput := by decide
+theorem iqrOverwriteInput_writes_caller (kinds : Nat → Kind) (hv : (kinds 1).view = true) :
+    Buf.caller 1 ∈ (run iqrOverwriteInput kinds).written := by
+  cases h0 : (kinds 0).view <;>
+    simp [run, runFrom, iqrOverwriteInput, step, init, upd, Cond.sat, anyLayout, hv, h0]
 
 /-! non-vacuity of the generic statements on a concrete wrapper and concrete kinds -/
 
@@ -281,6 +808,53 @@ example :
   decide
 example : markedCallers andersonDarlingAsarray (fun _ => ⟨true, .f64, true⟩) 10 = [0] ∧
     markedCallers delineateBoundary (fun _ => ⟨true, .i64, true⟩) 10 = [1] := by decide
+
+/-- re-seeding: the generator (contents 7) is advanced by the call (8); put back, the second call leaves the same
+contents everywhere; not put back, the generator moves on (9) -/
+example :
+    let k : Nat → Kind := fun _ => ⟨true, .f64, true⟩
+    let r1 := mrun markSem kdeSeeded k (fun _ => 7)
+    let r2 := mrun markSem kdeSeeded k (memSet r1.mem (.caller rngState) 7) r1.st.next
+    let r2' := mrun markSem kdeSeeded k r1.mem r1.st.next
+    r1.mem (.caller rngState) = 8 ∧ r2.mem (.caller rngState) = 8 ∧ r2'.mem (.caller rngState) = 9 ∧
+      r1.mem (.caller 0) = 7 := by decide
+
+/-- dtypes after `accumulate(flowdir: int32 grid, to_accumulate: float32 grid)` -/
+example :
+    let k : Nat → Kind := fun i => if i = 0 then ⟨true, .i32, true⟩ else ⟨true, .f32, true⟩
+    callerDType (run accumulate k) k 0 = .i64 ∧ callerDType (run accumulate k) k 1 = .f64 ∧
+      callerDType (run accumulate k) k 2 = .f32 ∧ callerDType (run crps k) k 0 = .i32 := by decide
+
+/-- the caller overwrites what `anderson_darling_test` returned (local 10) with 99: the second call stores what the
+first one stored, and the caller's sample (7) is still there -/
+example :
+    let k : Nat → Kind := fun _ => ⟨true, .f64, true⟩
+    let r1 := mrun markSem andersonDarling k (fun _ => 7)
+    let r2 := mrun markSem andersonDarling k (memSet r1.mem (r1.st.env 10).buf 99) (0 + r1.st.next)
+    ReturnsPrivate andersonDarling [10] ∧ (r1.st.env 10).buf = .fresh 1 ∧ r1.mem (.fresh 1) = 1 ∧
+      r2.mem (r2.st.env 10).buf = 1 ∧ r2.mem (.caller 0) = 7 := by decide
+
+/-- `delineateBoundary_twice` on a concrete receiver with an idempotent sort (contents are sets of cells abstracted to a
+number, sorting sets bit 0): its hypotheses hold after any accepted delineation, and the two boundaries agree -/
+example :
+    let sem : OSem Nat := idemSem
+    let s := orun sem [.delineateArea true 3 .cells, .computeFpl .ok] (fun _ => 0)
+    s.obj.slot .area = some (.fresh 2) ∧ s.obj.slot .filled = some (.fresh 3) ∧ (Buf.fresh 3) ∉ s.obj.zero ∧
+      (ostep sem s (.delineateBoundary none .ok)).content .boundary = some 90 ∧
+      (ostep sem (ostep sem s (.delineateBoundary none .ok)) (.delineateBoundary none .ok)).content .boundary = some 90 := by
+  decide
+
+/-- rejected operations on a concrete receiver: the kernel error of a delineation leaves the stated state, a rejected
+`compute_flowpathlengths` / `delineate_boundary` nothing (the filled cells are sorted by the latter) -/
+example :
+    let s := orun omarkSem [.delineateArea true 1 .cells, .delineateBoundary none .ok, .computeFpl .ok] (fun _ => 0)
+    let s1 := ostep omarkSem s (.delineateArea false 2 .kernelError)
+    s1.raised = true ∧ s1.obj.slot .area = none ∧ s1.obj.slot .filled = none ∧ s1.obj.slot .inlets = none ∧
+      s1.content .boundary = s.content .boundary ∧ s1.content .fpl = s.content .fpl ∧ s.content .fpl = some 0 ∧
+      (ostep omarkSem s (.computeFpl .kernelError)).raised = true ∧
+      (ostep omarkSem s (.delineateBoundary (some 2) .kernelError)).content .filled = some 2 ∧
+      (ostep omarkSem s (.delineateBoundary (some 2) .kernelError)).content .boundary = s.content .boundary ∧
+      (ostep omarkSem s1 (.delineateBoundary none .ok)).raised = true := by decide
 
 /-- the read-only pass-through is visible in the events: a C-contiguous float64 `xycoords` reaches
 `c_coord2cell` itself, a float32 one is converted -/
